@@ -76,7 +76,7 @@ func runLimit(sc LimitScenario) *LimitTrace {
 	for _, dl := range sc.ConsDelay {
 		span += dl
 	}
-	maxWait := time.Duration(span + (int64(total)/int64(sc.Q)+4)*sc.I + int64(time.Hour))
+	maxWait := time.Duration(span + (int64(uint64(total)/sc.Q)+4)*sc.I + int64(time.Hour))
 	if sc.Real {
 		maxWait = 30 * time.Second
 	}
@@ -144,7 +144,13 @@ func judgeLimit(sc LimitScenario, tr *LimitTrace, inBubble bool) (fs []limitFind
 		fs = append(fs, limitFinding{prop, key, fmt.Sprintf(format, a...)})
 	}
 	st.MinSlack = 1 << 62
+	// a Quantity beyond any element count ("unlimited"): the rate bounds cannot be exceeded and
+	// the discipline must simply pass everything without a pause
+	hugeQ := sc.Q > 1<<40
 	Q := int64(sc.Q)
+	if hugeQ {
+		Q = 1 << 40
+	}
 	I := sc.I
 	total := sc.total()
 	if tr.StuckMsg != "" {
@@ -193,7 +199,7 @@ func judgeLimit(sc LimitScenario, tr *LimitTrace, inBubble bool) (fs []limitFind
 			}
 		}
 	}
-	st.Batches = (len(tr.Recv) + int(Q) - 1) / int(Q)
+	st.Batches = int((int64(len(tr.Recv)) + Q - 1) / Q)
 	for i := 1; i < len(tr.WS); i++ {
 		if tr.WS[i]-tr.WS[i-1] > I {
 			st.Stalls++
@@ -229,6 +235,25 @@ func judgeLimit(sc LimitScenario, tr *LimitTrace, inBubble bool) (fs []limitFind
 				}
 			}
 		}
+		// (3) an element is held back only by its own arrival, by order, or by the rate relative
+		// to the element Quantity places before it: anything later means that an available
+		// element was kept although fewer than Quantity had passed in the last Interval
+		if !sc.PrefillClosed {
+			slack := I / 100
+			for j := sc.Prefill; j < total && j < len(tr.Recv); j++ {
+				bound := tr.WS[j]
+				if j > 0 && tr.Recv[j-1] > bound {
+					bound = tr.Recv[j-1]
+				}
+				if jq := int64(j) - Q; jq >= 0 && tr.Recv[jq]+I > bound {
+					bound = tr.Recv[jq] + I
+				}
+				if tr.Recv[j] > bound+slack {
+					add("C12", "throttled-below-rate", "element #%d was written at %dns, its predecessor left at %dns and the element Quantity=%d places before it left %s, so it could leave at %dns, but it left at %dns: throttled below the configured rate (%d per %dns)", j+1, tr.WS[j], prevRecv(tr, j), sc.Q, qBefore(tr, int64(j)-Q), bound, tr.Recv[j], sc.Q, I)
+					break
+				}
+			}
+		}
 		if sc.Prefill == total && total > 0 {
 			// all N elements available up-front
 			slack := I / 100
@@ -250,6 +275,20 @@ func judgeLimit(sc LimitScenario, tr *LimitTrace, inBubble bool) (fs []limitFind
 	return
 }
 
+func prevRecv(tr *LimitTrace, j int) int64 {
+	if j == 0 {
+		return 0
+	}
+	return tr.Recv[j-1]
+}
+
+func qBefore(tr *LimitTrace, jq int64) string {
+	if jq < 0 {
+		return "(none)"
+	}
+	return fmt.Sprintf("at %dns", tr.Recv[jq])
+}
+
 type limitGen struct {
 	Real    bool
 	Upfront bool // favour the C12 shapes (counts around multiples of Quantity, prefilled)
@@ -269,9 +308,12 @@ func genLimitScenario(rng *rand.Rand, g limitGen) LimitScenario {
 	default:
 		sc.Q = uint64(1 + rng.IntN(20))
 	}
+	if rng.IntN(40) == 0 { // "unlimited": beyond any signed 64-bit count
+		sc.Q = []uint64{1<<63 - 1, 1 << 63, 1<<63 + 1, ^uint64(0), ^uint64(0) - 1, 1 << 62}[rng.IntN(6)]
+	}
 	if g.Real {
 		sc.I = int64(2+rng.IntN(30)) * int64(time.Millisecond)
-		if sc.Q > 50 {
+		if sc.Q > 50 && sc.Q < 1<<40 {
 			sc.Q = uint64(1 + rng.IntN(50))
 		}
 	} else {
@@ -288,8 +330,8 @@ func genLimitScenario(rng *rand.Rand, g limitGen) LimitScenario {
 			sc.I = int64(10 * time.Millisecond)
 		}
 	}
-	q := int(sc.Q)
-	// total element count around the boundaries
+	q := int(min(sc.Q, 64))
+	// total element count around the boundaries (for an "unlimited" Quantity: a few dozen elements)
 	var n int
 	switch rng.IntN(8) {
 	case 0:
